@@ -455,6 +455,11 @@ class Interp:
             base = target.value
             if self._is_loopvar_index(target, fr):
                 # Xp[i] = e(X[i], ...)  -> Xp is e(X, ...) element-wise
+                bp = self.path_of(base, fr)
+                if bp in self.prog.role_class:
+                    # state[name] = ... inside a loop over names: one generic item of the role object
+                    self.objenv[f"{bp}.<item>"] = v
+                    return
                 self.assign(base, v, fr, st)
                 self._mark_mutated(base, fr)
                 return
